@@ -169,6 +169,9 @@ def doc_group(name, traits_desc):
 SCALARS = {"u8": "u8", "u64": "u64", "i32": "i32", "usize": "usize", "bool": "bool", "u32": "u32"}
 
 S3 = struct("S3", [], [("a", prim("u8")), ("b", prim("u16")), ("c", prim("u64"))])
+# further callback element types (C18: several distinct `Callback_c_void__<T>` in one header)
+POINT2 = struct("Point2", [], [("x", prim("i32")), ("y", prim("i32"))])
+ADDR = struct("Addr", [], [("base", prim("u64")), ("len", prim("u32"))], [" A user address range."])
 
 
 def arg_type(kind):
@@ -183,6 +186,10 @@ def arg_type(kind):
         return path("OpaqueCallback", path("S3"))
     if kind == "cb_u64":
         return path("OpaqueCallback", prim("u64"))
+    if kind == "cb_p2":
+        return path("OpaqueCallback", path("Point2"))
+    if kind == "cb_p3":
+        return path("OpaqueCallback", path("Addr"))
     if kind == "ptr_const":
         return ptr(prim("u8"), True)
     if kind == "ptr_mut":
@@ -345,6 +352,8 @@ def build_library(model):
     add(opaque("NoContext", [], DOC_NOCONTEXT))
     add(opaque("MaybeUninit", ["T"]))
     add(dict(S3))
+    add(dict(POINT2))
+    add(dict(ADDR))
     for c in model.get("custom_contexts", []):
         add(struct(c, [], [("id", prim("u64")), ("refs", ptr(prim("u32"), False))], [" User-defined clone context %s." % c]))
 
